@@ -9,6 +9,7 @@ open Petl.Gen
 
 def expectedC19 : List (String × String) := [
   ("file:comparison.py", "c46d05a1308c92ce"),
+  ("file:compat.py", "2a259e16acd200bc"),
   ("file:config.py", "142bde514c82c29d"),
   ("file:transform/conversions.py", "c717da0d8eb0ba94"),
   ("file:transform/maps.py", "e13eb9e40cc9aa94"),
